@@ -119,6 +119,7 @@ class C17(Engine):
     prop = "C17"
     title = "naken_util never crashes, hangs or corrupts memory"
     quick_budget = 45
+    quick_runs = 4000
     thorough_budget = 1200
     rule = ("run i = real naken_asm writes a seeded image in one of 8 formats (ti-txt rendered by the harness) -> simulated disk "
             "damage (cut / bit flip / byte / zeroed or duplicated 512-byte sector / header field set to an extreme / dropped, "
